@@ -20,6 +20,7 @@ RULE = ("Exhaustive grid: p in 1..7, K in 0..8, size = every int 0..8 and every 
 ASSUMPTIONS = [
     "lo > hi is not generated; element types (numpy ints) are free",
     "coverage of sizes / variables is only demanded when a correct sampler misses with probability < 1e-12",
+    "sizes / counts / integer bounds are generated as Python ints or signed numpy integers of 32 bits or more (DESIGN.md 8.7b)",
 ]
 
 
